@@ -34,7 +34,7 @@ TID = TextIds()
 
 
 def leaves(texts, nil=False):
-    r = [('t', s) for s in texts] + [('line',), ('soft',), ('hl',)]
+    r = [('t', s) for s in texts] + [('line',), ('soft',), ('hl',), ('cat',)]
     if nil:
         r.append(('nil',))
     return r
@@ -60,6 +60,10 @@ def enum_terms(n, classic, texts, memo=None, hang=True, ann=True):
                     r.append(('ann', 7, d))
                 if hang:
                     r.append(('hang', 2, d))
+            # a concat with a single member (normalisation unwraps it; a forced break must survive)
+            r.append(('cat', d))
+            if not classic:
+                r.append(('fill', d))
         # n-ary concat, 2..4 children
         for arity in (2, 3, 4):
             for parts in compositions(n - 1, arity):
@@ -168,6 +172,8 @@ def split_size(rng, total, k):
 def is_classic(t):
     if t[0] in ('fc', 'fill', 'ann', 'hang', 'nil'):
         return False
+    if t == ('cat',):
+        return True
     return all(is_classic(x) for x in t[1:] if isinstance(x, tuple))
 
 
